@@ -2037,6 +2037,7 @@ class Recipe:
         if initial_contents:
             if not isinstance(initial_contents, Iterable):
                 raise TypeError("Initial contents must be iterable.")
+            initial_contents = list(initial_contents)  # an iterator must survive the checks below and last until bake
             if not all(isinstance(elem, tuple) and len(elem) == 2 for elem in initial_contents):
                 raise TypeError("Elements of initial_contents must be of the form (Substance, quantity.)")
             for substance, quantity in initial_contents:
@@ -3145,6 +3146,8 @@ class PlateSlicer(Slicer):
 
         if isinstance(substance, Substance):
             substance = [substance]
+        elif isinstance(substance, Iterable):
+            substance = list(substance)  # an iterator must survive the type check below
 
         if not (substance is None or
                 (isinstance(substance, Iterable) and all(isinstance(x, Substance) for x in substance))):
@@ -3187,6 +3190,8 @@ class PlateSlicer(Slicer):
 
         if isinstance(substance, Substance):
             substance = [substance]
+        elif isinstance(substance, Iterable):
+            substance = list(substance)  # an iterator must survive the type check below
         if unit is None:
             unit = config.moles_display_unit
 
